@@ -521,6 +521,8 @@ class State:
         self._jset('subst', a, rep)
         # re-key the facts that mention the eliminated atom
         for key in [k for k in self.forms if any(a in m for m, _ in k)]:
+            if key not in self.forms:
+                continue        # already re-keyed by a nested equality
             lo, hi, ex = self.forms[key]
             self._jdel('forms', key)
             np_ = self.norm(dict(key))
@@ -1214,6 +1216,8 @@ class Interp:
                 return K(0, 'bool')
             r = st.fresh('bool', 0, 1, 'cmp')
             r.cond = ('sign', d, strue)
+            for a_ in patoms(r.p):
+                st.atoms.cond[a_] = r.cond       # definition of the indicator atom (path independent)
             return r
         if isinstance(a, Agg) and isinstance(b, Agg) and a.variant is not None and not a.fields and not b.fields and op in ('Eq', 'Ne'):
             eq = a.variant == b.variant
